@@ -269,7 +269,8 @@ func getFeatureLookupsWithVar(table *font.Layout, featureIndex uint16, variation
 			return sub.AlternateFeature.LookupListIndices
 		}
 	}
-	return nil
+	// the record does not replace this feature : use the default one
+	return table.Features[featureIndex].LookupListIndices
 }
 
 // tests whether a specified lookup index in the specified face would
